@@ -462,6 +462,8 @@ def run_contract(c, root='/repo/src', verbose=False):
     res = ContractResult(c.cid)
     from . import interp as _interp0
     _interp0.ASSUMED_SITES.clear()
+    budget = float(os.environ.get('PYVC_CONTRACT_WALL_S', '900')) * float(os.environ.get('PYVC_TIMEOUT_SCALE', '1'))
+    _interp0.DEADLINE[0] = t0 + budget
     lib = Lib()
     program = Program(root, lib)
     worklist = [[]]
@@ -469,6 +471,9 @@ def run_contract(c, root='/repo/src', verbose=False):
     while worklist:
         prefix = worklist.pop()
         seen += 1
+        if time.time() > _interp0.DEADLINE[0]:
+            res.undecided.append("wall-time budget of %d s exhausted" % budget)
+            break
         if seen > c.max_paths:
             res.undecided.append("path budget of %d exhausted" % c.max_paths)
             break
